@@ -72,7 +72,7 @@ LabelsC04 == {"C04_Fresh", "C04_Url", "C04_Flattened", "C04_AlgMatchesKey",
               "C04_KeyChangeInner", "C04_Eab"}
 LabelsC08 == {"C08_AtMost10", "C08_RetryOnlyRecoverable", "C08_SameContent",
               "C08_NewestNonce", "C08_NoSuccessOnError", "C08_NoProblemDocFails",
-              "C08_PollAtMost20", "C08_ClassifyRecoverable", "C08_RetriesRecoverable", "C08_NoResendAfterFailure"}
+              "C08_PollAtMost20", "C08_ClassifyRecoverable", "C08_RetriesRecoverable", "C08_NoResendAfterFailure", "C08_FailureEndsAttempt"}
 Labels == LabelsC04 \cup LabelsC08
 
 (* A property guard: contributes its label to `bad' when F is false.  The   *)
@@ -99,6 +99,9 @@ Init == InitWith("a" :> "k")
 (* the same request is made again although the previous call for it did not end well (and was not the *)
 (* accountDoesNotExist answer that sends the client off to register again)                             *)
 Resent(url, who) == prev.url = url /\ prev.fail = "open" /\ who = caller
+(* more generally: a call that did not end well ends the caller's attempt (`?' all the way up) - the caller makes no further *)
+(* request of any kind until that attempt is over                                                                            *)
+AfterFailure(who) == prev.fail = "open" /\ who = caller
 BeginAs(isPoll, url, who) ==
     /\ phase' = IF cell = NoNonce THEN "fetch" ELSE "loop"
     /\ retryDue' = FALSE /\ caller' = who
@@ -110,10 +113,12 @@ BeginAs(isPoll, url, who) ==
        THEN /\ bad' = Chk("C08_PollAtMost20", url = pollUrl => polls < MaxPolls)
                      \cup Chk("C08_RetriesRecoverable", ~retryDue)
                      \cup Chk("C08_NoResendAfterFailure", ~Resent(url, who))
+                     \cup Chk("C08_FailureEndsAttempt", ~AfterFailure(who))
             /\ polls' = IF url = pollUrl THEN polls + 1 ELSE 1
             /\ pollUrl' = url
        ELSE polls' = 0 /\ pollUrl' = "none" /\ bad' = Chk("C08_RetriesRecoverable", ~retryDue)
                                                            \cup Chk("C08_NoResendAfterFailure", ~Resent(url, who))
+                                                           \cup Chk("C08_FailureEndsAttempt", ~AfterFailure(who))
     /\ Keep(<<cell, issued, consumed, newest, acctKey>>)
 Begin(isPoll, url) == BeginAs(isPoll, url, "none")
 
@@ -257,6 +262,8 @@ MCBegin == /\ nreq < MaxRequests /\ phase \in {"idle", "ok", "failed"}
                 \* a call that failed ends the attempt (`?'): the same request is only made again by the next attempt (MCOver),
                 \* unless the polling loop swallows the failure and goes round again
                 /\ Resent(u, "none") => (p /\ "PollSwallowsFailure" \in Deviations)
+                \* ... and no other request either, unless the failed answer is merely logged and the flow goes on
+                /\ (AfterFailure("none") /\ ~Resent(u, "none")) => "FailureOnlyLogged" \in Deviations
                 /\ Begin(p, u)
 MCOver == /\ phase \in {"ok", "failed"} /\ prev # NoPrev /\ AttemptOver("none")
 
